@@ -8,7 +8,7 @@ CLAIMED = {
              "are not NUL and never emitted by qurl_encode - sep_admissible decides this from the regenerated table - not only "
              "'=' and '&'); model tied to the code by a differential "
              "correspondence run (all strings of length 0-2, sampled length 3, random up to 8 KiB; query parsing with every "
-             "pair of separators from {=,&,;,space,NUL,0x80,0xff,%,+} against an independent reference reading).",
+             "pair of separators from {=,&,;,space,NUL,0x80,0xff,%,+} against an independent reference reading). Query text stored IN the destination table (unique keys) with pairs that re-define its entry: exact reference reading, ASan; allocation ledger of qparse_queries (1 + 5 per pair, nothing left); a different ambient errno is planted before every library call.",
         note="trusted: Lean kernel, translator/tables.py (gcc -E + regex), the hand transcription of the loops "
              "(validated only on explored inputs), gcc/ASan; x86-64 signed char.",
         technique="Lean 4 proof (induction over byte lists, decide +kernel over regenerated tables) + "
@@ -41,7 +41,11 @@ CLAIMED = {
              "correspondence: `section.key` names and error messages (each error kind, the harness sizes the file path) of "
              "EVERY total length 1020..1029, 2044..2053, 4080..4110, 8180..8200, stubbed command output of 1000..1030, "
              "2040..2056, 4090..4100, 8190..8194 bytes, 1 MiB +-1 and 2^21-1 .. 2^22+1 bytes, qfile_read with every kind of "
-             "nbytes around the block sizes, documents of 65534..70001 lines, all under the per-call watchdog.",
+             "nbytes around the block sizes, documents of 65534..70001 lines, all under the per-call watchdog. Ambient state the models do not have: before "
+             "EVERY library call the harnesses plant an errno value (0, ENOMEM, ERANGE, EINTR, ENOENT, EINVAL, EAGAIN, ENOBUFS, "
+             "chosen from the operation text), a sample of the Apache-style documents and of the main files of "
+             "qconfig_parse_file is read through a PIPE (not seekable, fstat size 0), documents start with EF BB BF; "
+             "qparse_queries on a query text that lives in the destination table and is re-defined by one of its pairs.",
         note="trusted: Lean kernel, hand transcription of the decoder loops (validated on explored inputs), gcc/ASan; "
              "wall-clock termination of compiled code is observed by timeouts, the theorem is about fuel; the include loop's buffer accesses are "
              "list operations in the model (its PATH_MAX overflow was found by the harness under ASan); popen of ${!cmd} "
@@ -227,7 +231,9 @@ CLAIMED.update({
              "{=,:,space,#,[}; `section.key` names and error messages of every total length around 1024 * 2^k (each error "
              "kind), `${!command}` output of every length around the block sizes of qfile_read compared with the value the "
              "file says, documents of 65534..65540 and 70001 lines with the first offence on the last line (message names "
-             "that line) and as many directives (returned count); reference oracle computed from the grammar value.",
+             "that line) and as many directives (returned count); the same documents read through a pipe (12 % of the "
+             "Apache-style ones, 15 % of the main files) and under a different ambient errno per call: same reading; a leading "
+             "EF BB BF is part of the first word; reference oracle computed from the grammar value.",
         note="ac_accept_iff / ac_callbacks are proved for ARBITRARILY NESTED, properly closed sections incl. refusing "
              "callbacks (induction over the document tree); over-long lines (repaired: the rest of a line that does not fit "
              "is consumed): comments of any length are covered by every document-level theorem (FLineOk has no bound for "
